@@ -86,6 +86,7 @@ func (scTCPAB) Run(t *testing.T, prop string, seed uint64, cfgRaw json.RawMessag
 		})
 	}
 	o.Cfg, _ = json.Marshal(cfg)
+	sim.SeedRuntime(sim.Mix(seed ^ 0x71e5)) // the pre-pass must not shift the main run's timer-tie stream
 	bubble(t, func() {
 		w := NewABWorld(seed, cfg)
 		defer w.Close()
@@ -114,6 +115,7 @@ func (scTCPAB) Run(t *testing.T, prop string, seed uint64, cfgRaw json.RawMessag
 			}
 			w.Steps = steps
 		}
+		w.Settle() // posted application operations finish
 		if w.Viol == nil {
 			w.Drain(livenessBound)
 		}
@@ -146,6 +148,16 @@ func isStreamClass(c string) bool {
 // cleanup closes what the applications still hold so that the bubble leaves as
 // few parked goroutines behind as possible.
 func (w *ABWorld) cleanup() {
+	w.Settle()
+	for _, c := range w.conns {
+		for _, s := range c.s {
+			if s != nil && s.ch != nil {
+				close(s.ch)
+				s.ch = nil
+			}
+		}
+	}
+	w.Probes["async_app_operations"] += int64(w.asyncOps)
 	for _, c := range w.conns {
 		for _, s := range c.s {
 			if s != nil && !s.closed {
